@@ -51,4 +51,10 @@ if [ "$PROP" = C08 ]; then
   [ -x $W/vsched-stmt ] || { echo "UNDECIDED property=C08 statement-granularity build failed"; exit 0; }
   exec $W/vsched-stmt "$PROP"
 fi
+if [ "$TIER" = thorough ] && [ -x $W/vsched-stmt ] && [ "$PROP" != C15 ]; then
+  $W/vsched-sync "$PROP"; rc1=$?
+  VERIF_STMT=1 VERIF_EVIDENCE_APPEND=1 $W/vsched-stmt "$PROP"; rc2=$?
+  [ $rc1 -gt $rc2 ] && exit $rc1
+  exit $rc2
+fi
 exec $W/vsched-sync "$PROP"
